@@ -401,6 +401,7 @@ func executeC20(scn *Scenario) *RunResult {
 				}
 				res.Counters["call_panicked"]++
 			}
+			ambBetweenCalls()
 		}()
 		f()
 	}
